@@ -50,3 +50,17 @@ From VModel Require Import AuditSM.
 From VProofs Require Import TieC09.
 Theorem c09_tie_protocol_mismatch : protocol_mismatch_text = str_bytes src_protocol_mismatch_text.
 Proof. exact tie_protocol_mismatch. Qed.
+
+(* the decisions of audit() on the first packet as they read in the current source (T1c translation): automatic SSH-1 retry, wrong message type *)
+Theorem c09_tie_classify_error_packet : forall sshv a e,
+  classify sshv a (PktErr e) = if src_ssh1_retry (zs_eqb e protocol_mismatch_text) sshv a then ApFallbackSsh1 else ApExit1.
+Proof. exact tie_classify_error_packet. Qed.
+Theorem c09_tie_classify_wrong_type : forall sshv a t payload, (sshv = 1 \/ sshv = 2)%Z ->
+  src_first_packet_wrong_type sshv t = true -> classify sshv a (PktOk t payload) = ApExit1.
+Proof. exact tie_classify_wrong_type. Qed.
+Theorem c09_tie_classify_right_type : forall sshv a t payload, (sshv = 1 \/ sshv = 2)%Z ->
+  src_first_packet_wrong_type sshv t = false ->
+  classify sshv a (PktOk t payload) =
+  if (sshv =? 1)%Z then match parse_pkm payload with Ok (m, _) => ApPkm m | Raise _ => ApExit1 end
+  else match parse_kexinit payload with Ok (k, _) => ApKex k | Raise _ => ApExit1 end.
+Proof. exact tie_classify_right_type. Qed.
